@@ -7,10 +7,12 @@ import (
 	"math/big"
 	"math/rand"
 	"net"
+	"strings"
 
 	"github.com/coredhcp/coredhcp/plugins/allocators"
 	"github.com/coredhcp/coredhcp/plugins/allocators/bitmap"
 
+	"verif/internal/engarith"
 	"verif/internal/fw"
 	"verif/internal/model"
 )
@@ -39,6 +41,24 @@ var v6Shapes = [][2]int{{56, 64}, {60, 68}, {64, 64}, {63, 65}, {62, 66}, {0, 8}
 
 func (allocEngine) Gen(rng *rand.Rand, tier string, i int) any {
 	c := &allocCase{Seed: rng.Int63(), Ops: 20 + rng.Intn(181)}
+	if i%3000 == 1499 {
+		// capacity of a large pool: every block below 2^j is taken (by hints), then an un-hinted Allocate
+		// must still find the free upper part. j runs 24, 23, ... over the probes of a run.
+		j := 24 - (i/3000)%9
+		c.Probe = fmt.Sprintf("v6-capacity-%d", j)
+		c.Start, c.PoolLen, c.Page = "2001:db8::", 64-(j+1), 64
+		return c
+	}
+	if rng.Intn(400) == 0 {
+		// a pool of 2^33 blocks (the code accepts it with a warning; the bitmap is 1 GiB of untouched
+		// virtual memory): block indices that do not fit 32 bits
+		c.Probe = "v6-huge-pool"
+		c.Start, c.PoolLen, c.Page = "2001:db8::", 31, 64
+		if rng.Intn(2) == 0 {
+			c.Start, c.PoolLen, c.Page = "2001:db8:4000::", 34, 67
+		}
+		return c
+	}
 	if rng.Intn(600) == 0 {
 		c.Probe = "v4-full-range"
 		c.V4 = true
@@ -76,18 +96,18 @@ func (allocEngine) Gen(rng *rand.Rand, tier string, i int) any {
 		c.Ops = 400
 	}
 	c.PoolLen, c.Page = sh[0], sh[1]
-	base := pattern128(rng)
+	base := engarith.Pattern128(rng)
 	switch rng.Intn(4) {
 	case 0:
 		base.SetString("20010db8000000000000000000000000", 16)
 		base.Add(base, new(big.Int).Lsh(big.NewInt(int64(rng.Intn(1<<16))), 64))
 	case 1:
-		base.Sub(two128, big.NewInt(1)) // all ones, masked below
+		base.Sub(engarith.Two128, big.NewInt(1)) // all ones, masked below
 	}
 	sft := uint(128 - c.PoolLen)
 	base.Rsh(base, sft)
 	base.Lsh(base, sft)
-	c.Start = ipOf(base).String()
+	c.Start = engarith.IPOf(base).String()
 	return c
 }
 
@@ -135,6 +155,14 @@ func (allocEngine) Run(ctx *fw.Ctx, cs any) {
 	c := cs.(*allocCase)
 	if c.Probe == "v4-full-range" {
 		probeFullV4(ctx, c)
+		return
+	}
+	if strings.HasPrefix(c.Probe, "v6-capacity-") {
+		probeCapacityV6(ctx, c)
+		return
+	}
+	if c.Probe == "v6-huge-pool" {
+		probeHugeV6(ctx, c)
 		return
 	}
 	r := &allocRun{ctx: ctx, c: c, rng: rand.New(rand.NewSource(c.Seed)), out: map[uint64]bool{}, classes: map[string]bool{}}
@@ -496,11 +524,11 @@ func (r *allocRun) doFree() {
 				setMask(32)
 			}
 		} else {
-			far := pattern128(r.rng)
+			far := engarith.Pattern128(r.rng)
 			if _, in, _ := p.Locate(far); in {
 				return
 			}
-			target.IP = ipOf(far).Mask(net.CIDRMask(p.Page, 128))
+			target.IP = engarith.IPOf(far).Mask(net.CIDRMask(p.Page, 128))
 			setMask(p.Page)
 		}
 	}
@@ -645,4 +673,118 @@ func min64(a, b uint64) uint64 {
 		return a
 	}
 	return b
+}
+
+// probeHugeV6: hinted allocations and frees at block indices below, at and above 2^32 in a pool of
+// 2^33 blocks; no drain (the pool cannot be exhausted), the model is the set of outstanding indices.
+func probeHugeV6(ctx *fw.Ctx, c *allocCase) {
+	base := net.ParseIP(c.Start).To16()
+	pool := &model.Pool{Start: new(big.Int).SetBytes(base), N: uint64(1) << uint(c.Page-c.PoolLen), Page: c.Page}
+	a, err := bitmap.NewBitmapAllocator(net.IPNet{IP: base, Mask: net.CIDRMask(c.PoolLen, 128)}, c.Page)
+	if err != nil {
+		ctx.Count("alloc.probe.huge.rejected", 1)
+		return // refusing such a pool is acceptable
+	}
+	rng := rand.New(rand.NewSource(c.Seed))
+	idxs := []uint64{0, 5, 1<<32 - 1, 1 << 32, 1<<32 + 7, 1<<32 + 5, 1<<33 - 1, 3 << 31, uint64(rng.Int63n(1 << 33)), 1<<32 + uint64(rng.Int63n(1<<32))}
+	out := map[uint64]bool{}
+	var trace []string
+	viol := func(prop, sig, format string, x ...any) {
+		ctx.Viol(prop, sig, "IPv6 pool %s/%d->/%d (2^%d blocks): %s\n  operations: %v", c.Start, c.PoolLen, c.Page, c.Page-c.PoolLen, fmt.Sprintf(format, x...), trace)
+	}
+	for step := 0; step < 60; step++ {
+		i := idxs[rng.Intn(len(idxs))]
+		blk := net.IPNet{IP: pool.IP(new(big.Int).Add(pool.Start, new(big.Int).Lsh(new(big.Int).SetUint64(i), uint(128-c.Page)))), Mask: net.CIDRMask(c.Page, 128)}
+		for _, p := range []string{"C04", "C05", "C06", "C07"} {
+			ctx.Eval(p, 1)
+		}
+		if rng.Intn(2) == 0 {
+			got, err := a.Allocate(blk)
+			trace = append(trace, fmt.Sprintf("Allocate(hint block %d %s)=%s,%v", i, blk.IP, ipnetStr(got), err))
+			if err != nil {
+				viol("C05", "alloc-fails-while-free", "Allocate failed: %v", err)
+				return
+			}
+			v, _ := pool.AddrValue(got.IP)
+			idx, in, al := pool.Locate(v)
+			if !in || !al {
+				viol("C05", "alloc-not-a-block", "returned %s is not a block of the pool", ipnetStr(got))
+				return
+			}
+			if out[idx] {
+				viol("C04", "double-handout", "block %d returned although it is outstanding", idx)
+				return
+			}
+			if !out[i] && idx != i {
+				viol("C07", "hint-not-honoured", "hint names free block %d, block %d was returned", i, idx)
+			}
+			out[idx] = true
+			ctx.Count("alloc.probe.huge.allocs", 1)
+		} else {
+			err := a.Free(blk)
+			trace = append(trace, fmt.Sprintf("Free(block %d %s)=%v", i, blk.IP, err))
+			if out[i] && err != nil {
+				viol("C06", "free-rejects-outstanding:huge-index", "Free of outstanding block %d failed: %v", i, err)
+				return
+			}
+			if !out[i] && err == nil {
+				viol("C06", "free-succeeds:not-outstanding", "Free of block %d, which is not outstanding, returned nil", i)
+				return
+			}
+			delete(out, i)
+			ctx.Count("alloc.probe.huge.frees", 1)
+		}
+		if len(trace) > 12 {
+			trace = trace[len(trace)-12:]
+		}
+	}
+	for _, p := range []string{"C04", "C05", "C06", "C07"} {
+		ctx.Nontrivial(p, fmt.Sprintf("huge/%s/%d", c.Start, c.Seed))
+	}
+}
+
+// probeCapacityV6: pool of 2^(j+1) blocks; blocks 0 .. 2^j-1 are taken one by one with exact hints,
+// then un-hinted allocations must come from the free upper half (capacity is exact: the pool is not full).
+func probeCapacityV6(ctx *fw.Ctx, c *allocCase) {
+	var j int
+	fmt.Sscanf(c.Probe, "v6-capacity-%d", &j)
+	base := net.ParseIP(c.Start).To16()
+	pool := &model.Pool{Start: new(big.Int).SetBytes(base), N: uint64(1) << uint(c.Page-c.PoolLen), Page: c.Page}
+	a, err := bitmap.NewBitmapAllocator(net.IPNet{IP: base, Mask: net.CIDRMask(c.PoolLen, 128)}, c.Page)
+	if err != nil {
+		ctx.Viol("C05", "constructor-rejects-valid-pool", "pool %s/%d->/%d: %v", c.Start, c.PoolLen, c.Page, err)
+		return
+	}
+	half := uint64(1) << uint(j)
+	hint := net.IPNet{IP: make(net.IP, 16), Mask: net.CIDRMask(c.Page, 128)}
+	for i := uint64(0); i < half; i++ {
+		copy(hint.IP, base)
+		// block i: bits (128-page) and up; page = 64 here, so the index sits in bytes 0..7
+		v := (uint64(base[0])<<56 | uint64(base[1])<<48 | uint64(base[2])<<40 | uint64(base[3])<<32 | uint64(base[4])<<24 | uint64(base[5])<<16 | uint64(base[6])<<8 | uint64(base[7])) + i
+		for b := 0; b < 8; b++ {
+			hint.IP[b] = byte(v >> uint(56-8*b))
+		}
+		got, err := a.Allocate(hint)
+		if err != nil || !got.IP.Equal(hint.IP) {
+			ctx.Viol("C07", "hint-not-honoured", "pool of 2^%d blocks: hint on free block %d (%s) returned %s, %v", j+1, i, hint.IP, ipnetStr(got), err)
+			return
+		}
+	}
+	ctx.Eval("C05", int64(half))
+	for k := 0; k < 3; k++ {
+		got, err := a.Allocate(net.IPNet{})
+		if err != nil {
+			ctx.Viol("C05", "alloc-fails-while-free", "pool of 2^%d blocks with exactly the lower 2^%d outstanding: an un-hinted Allocate fails with %v although 2^%d blocks are free", j+1, j, err, j)
+			return
+		}
+		v, _ := pool.AddrValue(got.IP)
+		idx, in, al := pool.Locate(v)
+		if !in || !al || idx < half+uint64(k) && idx < half {
+			ctx.Viol("C04", "double-handout", "pool of 2^%d blocks with the lower 2^%d outstanding: Allocate returned %s (block %d, inside=%v aligned=%v)", j+1, j, ipnetStr(got), idx, in, al)
+			return
+		}
+	}
+	ctx.Count("alloc.probe.capacity", 1)
+	ctx.Count(fmt.Sprintf("alloc.probe.capacity.2^%d", j), 1)
+	ctx.Nontrivial("C05", "capacity/"+c.Probe)
 }
